@@ -157,8 +157,12 @@ package memmetrics
 
 // ---- round-trip metrics (C18): which counters a response moves, and the ratios read from them --------------
 
-//@ pred counterOK(c *RollingCounter) = c != nil && allocated(c) && cfgOK(c) && RC(c) && lastclock >= (len(c.values) + 1) * c.resolution
+//@ pred counterOK(c *RollingCounter) = c != nil && allocated(c) && allocated(backing(c.values)) && cfgOK(c) && RC(c) && lastclock >= (len(c.values) + 1) * c.resolution
 //@ pred metricsOK(m *RTMetrics) = m != nil && counterOK(m.total) && counterOK(m.netErrors) && m.total != m.netErrors && backing(m.total.values) != backing(m.netErrors.values)
+
+// the per-status counters: one well-formed counter per recorded code, none shared with another code or with total / netErrors
+//@ pred apart(a *RollingCounter, b *RollingCounter) = a != b && backing(a.values) != backing(b.values)
+//@ pred statusOK(m *RTMetrics) = m.statusCodes != nil && (forall k int :: in(k, m.statusCodes) ==> counterOK(m.statusCodes[k]) && apart(m.statusCodes[k], m.total) && apart(m.statusCodes[k], m.netErrors)) && (forall k int, j int :: in(k, m.statusCodes) && in(j, m.statusCodes) && k != j ==> apart(m.statusCodes[k], m.statusCodes[j]))
 
 //@ type RTMetrics
 //@   immutable total netErrors newCounter newHist statusCodesLock histogramLock histogram
@@ -168,6 +172,7 @@ package memmetrics
 //@   protects histogramLock: histogram
 //@   guards statusCodesLock: RollingCounter.lastUpdated RollingCounter.countedBuckets RollingCounter.lastBucket RollingCounter.values RollingCounter.gsum RollingCounter.tclean elems(int)
 //@   lockinv statusCodesLock (m): counters_ok: metricsOK(m)
+//@   lockinv statusCodesLock (m): status_counters_ok: statusOK(m)
 //@   guards histogramLock: RollingHDRHistogram.idx RollingHDRHistogram.lastRoll hdrhistogram.Histogram.cnt
 //@   lockinv histogramLock (m): histogram_ok: rollingOK(m.histogram)
 
@@ -323,8 +328,11 @@ package memmetrics
 
 //@ func (*RTMetrics).recordStatusCode
 //@   props C18
-//@   trusted
-//@   modifies external
+//@   assume clock_stable
+//@   requires m != nil
+//@   modifies mapof(m.statusCodes), external
+//@   ensures counted_once_under_this_code: result == nil ==> calls(Inc) == 1 && callarg(Inc, 0, 1) == 1 && in(statusCode, m.statusCodes) && callarg(Inc, 0, 0) == m.statusCodes[statusCode]
+//@   ensures failure_counts_nothing: result != nil ==> calls(Inc) == 0
 
 //@ func (*RTMetrics).recordLatency
 //@   props C18
@@ -428,6 +436,7 @@ package memmetrics
 //@ functype memmetrics.NewCounterFn
 //@   modifies nothing
 //@   ensures new_counter: result1 == nil ==> result0 != nil && fresh(result0) && fresh(backing(result0.values)) && len(result0.values) >= 1 && result0.resolution >= 1000000000
+//@   ensures new_counter_is_empty_and_well_formed: result1 == nil ==> counterOK(result0)
 //@ functype memmetrics.NewRollingHistogramFn
 //@   modifies nothing
 //@   ensures new_histogram: result1 == nil ==> result0 != nil && fresh(result0) && rollingOK(result0)
